@@ -43,6 +43,7 @@ func runC17(r *hk.Run) {
 	g.protoCases()
 	g.progressUnitCases()
 	g.downloadCases()
+	g.downloadCallCases()
 	r.Notes = append(r.Notes,
 		fmt.Sprintf("ordered form data with an odd number of strings (outside the property): request sent without error %d time(s)", g.oddOrderedSilent),
 		fmt.Sprintf("file/param names with control bytes or unprintable runes (outside the guard): arrived in altered form %d time(s), part structure intact", g.alteredNames))
